@@ -360,7 +360,8 @@ func (c *client) CloseConnection() {
 //
 // Returns:
 //   - hydraidepbgo.HydraideServiceClient (bound to the correct server)
-//   - nil if no client is registered for the calculated folder
+//   - if no server is registered for the calculated folder: ONE shared client (the same for every such swamp) whose
+//     calls all fail with codes.Unavailable — never nil, so callers may group by client and need no nil check
 //
 // Example:
 //
@@ -390,21 +391,25 @@ func (c *client) GetServiceClient(swampName name.Name) hydraidepbgo.HydraideServ
 	slog.Error("error while getting service client by swamp name",
 		"swampName", swampName.Get())
 
-	return hydraidepbgo.NewHydraideServiceClient(unroutable{island: folderNumber})
+	return unrouted.GrpcClient
 
 }
 
 // unroutable is the connection behind the service client that is handed out for an island no configured
 // server covers: every call on it fails with codes.Unavailable instead of a nil-pointer panic in the caller.
-type unroutable struct{ island uint64 }
+type unroutable struct{}
 
-func (u unroutable) Invoke(context.Context, string, any, any, ...grpc.CallOption) error {
-	return status.Errorf(codes.Unavailable, "%s: no server is configured for island %d", errorNoConnection, u.island)
+func (unroutable) Invoke(context.Context, string, any, any, ...grpc.CallOption) error {
+	return status.Errorf(codes.Unavailable, "%s: no server is configured for the island of this swamp", errorNoConnection)
 }
 
-func (u unroutable) NewStream(context.Context, *grpc.StreamDesc, string, ...grpc.CallOption) (grpc.ClientStream, error) {
-	return nil, status.Errorf(codes.Unavailable, "%s: no server is configured for island %d", errorNoConnection, u.island)
+func (unroutable) NewStream(context.Context, *grpc.StreamDesc, string, ...grpc.CallOption) (grpc.ClientStream, error) {
+	return nil, status.Errorf(codes.Unavailable, "%s: no server is configured for the island of this swamp", errorNoConnection)
 }
+
+// unrouted is the one ServiceClient shared by all swamps without a route (empty Host), so that callers which
+// group their requests by client or by host put all of them into a single group.
+var unrouted = &ServiceClient{GrpcClient: hydraidepbgo.NewHydraideServiceClient(unroutable{})}
 
 // GetAllIslands returns the total number of Islands configured in the client.
 func (c *client) GetAllIslands() uint64 {
@@ -425,7 +430,8 @@ func (c *client) GetAllIslands() uint64 {
 //   - `GrpcClient` → the actual gRPC HydrAIDEServiceClient
 //   - `Host`       → the Host string of the resolved server (e.g. IP:port or logical name)
 //
-// - nil if no matching server is registered for the calculated folder
+//   - if no matching server is registered for the calculated folder: ONE shared *ServiceClient with an empty Host and a
+//     GrpcClient whose calls fail with codes.Unavailable (never nil; test `Host == ""` to tell)
 //
 // Example:
 //
@@ -461,7 +467,7 @@ func (c *client) GetServiceClientAndHost(swampName name.Name) *ServiceClient {
 		"swampName", swampName.Get(),
 		"error", errorNoConnection)
 
-	return &ServiceClient{GrpcClient: hydraidepbgo.NewHydraideServiceClient(unroutable{island: folderNumber})}
+	return unrouted
 
 }
 
